@@ -363,6 +363,21 @@ def ref_options(tree):
     return [(r[0], r[1] if r[0] == "v" else list(r[1])) for r in sorted(refs, key=repr)]
 
 
+def export_refs(use, have=()):
+    """references *through* a re-export: the exported name of a `pub use` (module path + alias) and its relative forms"""
+    if use is None or not use[2][1]:
+        return []
+    mp, _, (_, _, path, tgt) = use
+    names = [path[-1]] if tgt == "S" else (list(tgt[1]) if isinstance(tgt, (list, tuple)) and tgt[0] == "L" else [])
+    out = []
+    for n in names:
+        for s in suffixes(tuple(mp) + (n,), 2):
+            r = ("q", list(s))
+            if r not in have and r not in out:
+                out.append(r)
+    return out
+
+
 def gen_exhaustive(max_defs, shard, nshards, stride=1, nested_pub=True):
     """shard `shard` of `nshards` of the exhaustive scope; stride > 1 keeps every stride-th case only"""
     n = 0
@@ -370,8 +385,9 @@ def gen_exhaustive(max_defs, shard, nshards, stride=1, nested_pub=True):
     shard *= stride
     for tree in small_trees(max_defs, 2, nested_pub=nested_pub):
         mods = sorted(set(module_paths(tree)))
-        refs = ref_options(tree)
+        refs0 = ref_options(tree)
         for use in use_options(tree):
+            refs = refs0 + export_refs(use, refs0)
             for pos in [()] + mods:
                 for ref in refs:
                     # shadowing is only interesting when something could be shadowed: an import or a module member
@@ -483,7 +499,12 @@ def gen_random(seed, n, lets=False):
         for _ in range(r.pick((0, 1, 1, 2, 3))):
             p = r.pick(fnpaths)
             form = r.below(10)
-            if form < 5 and len(p) >= 2:
+            exported = sorted(e for e in set(exported_names(items)) if len(e) >= 2)
+            if exported and r.chance(1, 4):
+                # a `use` of a re-exported name (chains and cycles of re-exports)
+                path = list(r.pick(suffixes(r.pick(exported), 2)))
+                tgt = "S"
+            elif form < 5 and len(p) >= 2:
                 path = list(r.pick(suffixes(p, 2)))
                 tgt = "S"
             elif form < 7 and len(p) >= 2:
@@ -506,6 +527,10 @@ def gen_random(seed, n, lets=False):
             ref = ("v", p[-1])
         if r.chance(1, 15):
             ref = ("q", [r.pick((1, 2, 3)), r.pick((4, 5, 6))])
+        exported = sorted(e for e in set(exported_names(items)) if len(e) >= 2)
+        if exported and r.chance(1, 3):
+            # a reference through a re-export
+            ref = ("q", list(r.pick(suffixes(r.pick(exported), 2))))
         lp = list(let_paths(tree)) if lets else []
         if lp and r.chance(1, 4):
             mp, name = r.pick(lp)
@@ -764,7 +789,7 @@ def main(ctx, args):
         ctx.coverage["exhaustive_scope"] = (f"all module trees with <= {max_defs} functions (names n4,n5; modules n1,n2; depth <= 2; every pub/private assignment of functions"
                                             + ("" if max_defs <= 2 else " and nested modules") + ") "
                                             "x (no use | one use / pub use: single, {..}, * of every absolute/relative path, placed at top or in any module) "
-                                            "x probe position (top level or any module) x reference (identifier, every absolute/relative path) x (plain | locally shadowed)"
+                                            "x probe position (top level or any module) x reference (identifier, every absolute/relative path of a function or let, and of the name a `pub use` exports) x (plain | locally shadowed)"
                                             "  +  let scope: A) every such tree (nested modules non-pub) x (no let item | one `let n7 = const` first or last (`pub let`) in the top-level block or in any module) "
                                             "x probe (top-level `let n8 = ref()` after EVERY prefix of the item list | module-level `let n8 = ref()` first / last in any module | fn probe in any module | fn probe whose reference is the right-hand side of a local `let n7`) "
                                             "x reference (functions and lets: identifier, every absolute/relative path) x probe name (n8 | n7 = name of the let item); "
